@@ -307,6 +307,32 @@ def step (st : St) (line : String) : St × List String :=
       let pays := payouts b reqs
       (st, ["ok " ++ toString (totalRequested reqs) ++ (String.join (pays.map fun q => " " ++ toString q.1.idx ++ "-" ++ q.1.hash ++ "=" ++ toString q.2))])
     | _, _ => (st, ["bad-op"])
+  | "applybatch" :: rest =>
+    -- applybatch <h> <nb> {t bal}* <nr> {t v}* <na> {t v}* <tx-entry tokens…>
+    -- one batch applied by `applyBatch` on a ledger holding only the input address' balances
+    let tv : Parser (Nat × Nat) := do let t ← nat; let v ← nat; pure (t, v)
+    let p : Parser (Nat × List (Nat × Nat) × List (Nat × Nat) × List (Nat × Nat) × Nat × TxEntry) := do
+      let h ← nat
+      let bals ← counted tv
+      let nilRates ← nat
+      let rates ← counted tv
+      let avgs ← counted tv
+      let e ← txEntry
+      pure (h, bals, rates, avgs, nilRates, e)
+    match p.run rest with
+    | some ((h, bals, rates, avgs, nilRates, e), []) =>
+      let inAddr := match e.txs with | t :: _ => t.inAddr | [] => ""
+      let row : AddrRow := { addr := inAddr, bals := bals.foldl (fun l p => setB l p.1 (p.2 : Int)) [] }
+      let db : DB := { addrs := [row] }
+      let r := if nilRates == 1 then none else some (rates : TMap)
+      let a := if nilRates == 1 then none else some (avgs : TMap)
+      match applyBatch st.P h e r a db with
+      | .ok v db' =>
+        let vs := match v with
+          | .apply => "apply" | .reject c => "reject " ++ toString c | .dropped => "dropped" | .failBlock _ => "failblock"
+        (st, ["ok " ++ vs ++ " |" ++ String.join (db'.addrs.map fun r => " " ++ r.addr ++ ":" ++ balStr r.bals) ++ " | rels=" ++ toString db'.rels.length])
+      | .fail f _ => (st, ["fail " ++ tohex f.kind])
+    | _ => (st, ["bad-op"])
   | ["inband", o, s, tn, td] =>
     match o.toNat?, s.toNat?, tn.toNat?, td.toNat? with
     | some o, some s, some tn, some td => (st, ["ok " ++ b01 (inBand o s tn td)])
